@@ -13,12 +13,26 @@ import re
 from harness import gallina as G
 
 ID = "C01"
-COQ_DIRS = ["C01"]
+COQ_DIRS = ["C01", "C04"]      # Gen/C01_src.v, Gen/C01_equiv.v are built as dependencies of Property.v
 PROPERTY_FILE = "C01/Property.v"
 RUN_IMPORTS = "From TV Require Import C01.Model C01.Run."
 RUN_FN = "run_case"
 CHECK_FN = "check_case"
-INPUT_TYPE = "(nat * N * nat * list (list N))"
+INPUT_TYPE = "(nat * N * nat * bool * list (list N))"
+
+
+def pre_build():
+    """regenerate coq/Gen/C01_src.v (constants / comparison operators / accumulation forms of
+    tornado/http1connection.py) from the working tree; fails closed"""
+    import importlib
+    import os
+    import sys
+    from harness.framework import REPO, COQ
+    sys.path.insert(0, os.path.join(os.path.dirname(COQ), "translators"))
+    import c01_src
+    importlib.reload(c01_src)
+    c01_src.emit(REPO, os.path.join(COQ, "Gen", "C01_src.v"))
+
 
 CRLF = b"\r\n"
 CASE_TIMEOUT_S = 20      # a (mutated) server that spins is reported as a HarnessException observable, not a hang
@@ -54,7 +68,7 @@ def _install_logging():
 
 
 def serve_stream(segs, max_header, max_body, chunk_size, override=None, decompress=False, eof=True,
-                 gz_record=None):
+                 gz_record=None, no_keep_alive=False, stream_max_buffer=None):
     """Feed `segs` (non-empty byte strings) one at a time to a real HTTPServer connection.
     Returns (requests, final_tag, codes, extra) where requests = [[method, target, version,
     [(name, value)...], [chunks...], state]]."""
@@ -115,8 +129,8 @@ def serve_stream(segs, max_header, max_body, chunk_size, override=None, decompre
 
     async def scenario(loop):
         srv = HTTPServer(Srv(), max_header_size=max_header, max_body_size=max_body, chunk_size=chunk_size,
-                         decompress_request=decompress)
-        s = FakeIOStream()
+                         decompress_request=decompress, no_keep_alive=no_keep_alive)
+        s = FakeIOStream(max_buffer_size=stream_max_buffer)
         srv.handle_stream(s, ("1.2.3.4", 5))
         await quiesce(loop)
         for seg in segs:
@@ -173,7 +187,6 @@ def serve_stream(segs, max_header, max_body, chunk_size, override=None, decompre
             continue
         m = re.match(rb"HTTP/1\.1 (\d{3}) ", block)
         codes.append(int(m.group(1)) if m else -1)
-    codes = [c for c in codes if not (100 <= c < 200)]
     extra["closed_after"] = closed_after
     extra["errors"] = errors
     return log, final, codes, extra
@@ -191,7 +204,8 @@ def segs_of(case):
 
 
 def run_impl(case):
-    log, final, codes, extra = serve_stream(segs_of(case), case["mh"], case["mb"], case["cs"])
+    log, final, codes, extra = serve_stream(segs_of(case), case["mh"], case["mb"], case["cs"],
+                                            no_keep_alive=bool(case.get("nka")))
     o = canon(log, final, codes)
     if extra["body_mismatch"]:
         o.append(G.Tag("callback-saw-different-request"))
@@ -201,16 +215,16 @@ def run_impl(case):
 
 
 def coq_input(case):
-    return "(%s, %s, %s, %s)" % (G.gnat(case["mh"]), G.gn(case["mb"]), G.gnat(case["cs"]),
-                                 G.glist([G.gbytes(s) for s in segs_of(case)], "(list N)"))
+    return "(%s, %s, %s, %s, %s)" % (G.gnat(case["mh"]), G.gn(case["mb"]), G.gnat(case["cs"]), G.gbool(bool(case.get("nka"))),
+                                     G.glist([G.gbytes(s) for s in segs_of(case)], "(list N)"))
 
 
 # ----------------------------------------------------------------------------
 # generator
 # ----------------------------------------------------------------------------
-def mk(segs, mh=1000, mb=1000, cs=64, kind="", seg=""):
+def mk(segs, mh=1000, mb=1000, cs=64, kind="", seg="", nka=False):
     segs = [bytes(s) for s in segs if len(s) > 0]
-    return {"mh": mh, "mb": mb, "cs": cs, "segs": [s.decode("latin-1") for s in segs], "kind": kind, "seg": seg}
+    return {"mh": mh, "mb": mb, "cs": cs, "nka": nka, "segs": [s.decode("latin-1") for s in segs], "kind": kind, "seg": seg}
 
 
 METHODS = [b"GET", b"POST", b"HEAD", b"PUT", b"DELETE", b"M-SEARCH", b"get", b"P0ST!"]
@@ -219,6 +233,7 @@ HOSTS = [b"x", b"example.com", b"example.com:8080", b"[::1]:80", b"", b"a%41b", 
 EXTRA_HEADERS = [(b"X-A", b"1"), (b"x-a", b"2"), (b"Accept", b"*/*"), (b"X-Long", b"abc def\tghi"),
                  (b"Cookie", b"a=b; c=d"), (b"X-Obs", b"caf\xe9"), (b"X-Empty", b""), (b"ETag", b"\"x\""),
                  (b"x-b-c", b"v"), (b"X--D", b"w"), (b"Expect", b"100-continue"), (b"X-A", b"3"),
+                 (b"expect", b"100-continue"), (b"Expect", b"100-Continue"), (b"Expect", b"100-continue, x"),
                  (b"X-Fold", b"\r\n folded"), (b"X-Fold", b"a\r\n \r\n\tb"), (b"X-Fold", b"\n\t"), (b"X-Fold", b"a\r\n ")]
 
 
@@ -564,6 +579,11 @@ def corpus_cases():
     out.append(mk([b"GET / HTTP/1.1\r\nHost: a:" + b"1" * 4300 + b"\r\n\r\n"], mh=4999, kind="corpus-host-port-4300"))
     # was a genuine defect (uncaught ValueError from int() of the port); fixed in /repo by deca566
     out.append(mk([OVERFLOW_HOST], mh=4999, kind="corpus-host-port-4301"))
+    # Expect: 100-continue -- interim response before the body, also when the framing is then refused
+    out.append(mk([b"POST / HTTP/1.1\r\nHost: a\r\nExpect: 100-continue\r\nContent-Length: 3\r\n\r\n", b"abc"], kind="corpus-expect"))
+    out.append(mk([b"POST / HTTP/1.1\r\nHost: a\r\nExpect: 100-continue\r\nContent-Length: 3\r\nTransfer-Encoding: chunked\r\n\r\n"], kind="corpus-expect-then-400"))
+    out.append(mk([b"POST / HTTP/1.1\r\nHost: a\r\nExpect: 100-continue\r\nExpect: 100-continue\r\nContent-Length: 0\r\n\r\n"], kind="corpus-expect-twice"))
+    out.append(mk([b"POST / HTTP/1.1\r\nHost: a,b\r\nExpect: 100-continue\r\nContent-Length: 0\r\n\r\n"], kind="corpus-expect-bad-host"))
     # was a genuine defect (fixed in /repo by 002b519): requests buffered behind a request that closed the
     # connection were still dispatched to the application -- and only when they arrived in the same segment
     w = b"GET /1 HTTP/1.1\r\nHost: a\r\nConnection: close\r\n\r\nGET /2 HTTP/1.1\r\nHost: a\r\n\r\n"
@@ -581,12 +601,12 @@ def gen_cases(rng, tier):
         data, kind = gen_stream(rng)
         how = rng.choice(SEGMENTERS)
         out.append(mk(segment(rng, data, how), mh=rng.choice([1000, 1000, 200]), mb=rng.choice([1000, 64, 16]),
-                      cs=rng.choice([64, 16, 5, 1, 1000]), kind=kind, seg=how))
+                      cs=rng.choice([64, 16, 5, 1, 1000]), kind=kind, seg=how, nka=rng.random() < 0.15))
     for i in range(n_mut):
         data, kind = gen_stream(rng, mutation=MUTATIONS[i % len(MUTATIONS)])
         how = rng.choice(SEGMENTERS)
         out.append(mk(segment(rng, data, how), mh=rng.choice([1000, 1000, 200]), mb=rng.choice([1000, 64, 16]),
-                      cs=rng.choice([64, 16, 5, 1, 1000]), kind=kind, seg=how))
+                      cs=rng.choice([64, 16, 5, 1, 1000]), kind=kind, seg=how, nka=rng.random() < 0.08))
     for mh in ((64, 100) if tier == "quick" else (40, 64, 100, 257)):
         out += header_boundary_cases(rng, mh)
     for mb in ((16, 64) if tier == "quick" else (1, 16, 64, 300)):
@@ -637,13 +657,16 @@ def py_check(case, o):
     if any(str(r[5]) != "fin" for r in reqs[:-1]):
         return False                      # only the last request may be unfinished
     want = [200] * fins + ([400] if str(final) == "Bad400" else [])
-    return codes == want
+    if [c for c in codes if c != 100] != want:
+        return False
+    # at most one interim 100 per request that reached the application
+    return codes.count(100) <= len(reqs)
 
 
 def nontrivial(case, o):
     if not case["segs"]:
         return None
-    return ("".join(case["segs"]), tuple(len(s) for s in case["segs"]), case["mh"], case["mb"], case["cs"])
+    return ("".join(case["segs"]), tuple(len(s) for s in case["segs"]), case["mh"], case["mb"], case["cs"], bool(case.get("nka")))
 
 
 def classify(case, o):
@@ -655,6 +678,7 @@ def classify(case, o):
         for r in o[0]:
             hs = {k for k, _ in r[3]}
             yield "framing=" + ("chunked" if "Transfer-Encoding" in hs else "cl" if "Content-Length" in hs else "none")
+    yield "no_keep_alive=%s" % bool(case.get("nka"))
     yield "nsegs=" + ("1" if len(case["segs"]) <= 1 else "2-5" if len(case["segs"]) <= 5 else "6+")
 
 
@@ -706,12 +730,13 @@ TRUSTED_BASE = [
     "hand-coded Gallina recognisers replace Python `re` (terminator search, request-line, field-name/value, Host, \\s in the Content-Length split) "
     "and str methods on latin-1 text; tied by the correspondence only",
     "Python int() digit limit modelled as the constant 4300 (sys.int_info.default_max_str_digits)",
+    "translators/c01_src.py (ast-based, fail-closed reader of the constants / comparison operators / accumulation forms of http1connection.py; "
+    "ties those facts, not whole functions, to the model: coq/Gen/C01_src.v = C01.SrcDesc.src_expected)",
 ]
 ASSUMPTIONS = [
-    "no_keep_alive=False, xheaders=False, decompress_request=False; header_timeout/body_timeout never fire (virtual clock; see C05)",
+    "xheaders=False, decompress_request=False; header_timeout/body_timeout never fire (virtual clock; see C05)",
     "the application answers every request from finish() with an empty 200 and never detaches; requests carry no Content-Type "
     "(form/multipart body parsing in _CallableAdapter.finish is outside this property)",
-    "Expect: 100-continue interim responses are filtered out of the wire observable",
 ]
 RULE = ("1-4 pipelined requests from a request grammar (methods/targets/versions/Host forms/extra+duplicate+folded headers/Connection, "
         "bodies by Content-Length | chunked with random chunk splits | none; bare-LF line ends, leading blank lines) with one near-valid mutation "
